@@ -18,6 +18,9 @@ def gen(tier, seed):
     yield {'conv': 'ugrid', 'ny': 2, 'nx': 2, 'tables': ['edge_node', 'edge_face'], 'transposed': True}
     for order in (['face', 'node', 'back', 'left'], ['node', 'left', 'face', 'back'], ['back', 'face', 'node', 'left']):
         yield {'conv': 'shoc_standard', 'ny': 2, 'nx': 3, 'coordinate_order': order}
+    # curvilinear grids whose longitude is stored (x, y) while the latitude is stored (y, x), non-square
+    yield {'conv': 'cf2d', 'ny': 2, 'nx': 4, 'lon_transposed': True}
+    yield {'conv': 'cf2d', 'ny': 4, 'nx': 1, 'lon_transposed': True, 'as_coords': False}
     # tables that mention edges in a dataset without an edge dimension (no attribute, no edge table): still no edge grid
     yield {'conv': 'ugrid', 'ny': 2, 'nx': 3, 'split': [[0, 0]], 'tables': ['face_edge'], 'edge_dimension': False}
     yield {'conv': 'ugrid', 'ny': 2, 'nx': 2, 'tables': ['face_edge', 'face_face'], 'edge_dimension': False, 'start_index': 1}
